@@ -115,6 +115,21 @@ def do_op(op, mutate=False):
             nl = Netlist(src)
             m = nl.modules[0]
             return sig12(["ok", m.has_stog, [[r.center.x, r.center.y, r.location.name] for r in m.rectangles]])
+        if kind == "deepsat":
+            # one large constraint (hundreds or thousands of literals): the encoders recurse once per literal, so whether it can be
+            # encoded depends on the interpreter's recursion limit - which nothing done before may have changed
+            from tools.rect import satmanager as S
+            from tools.rect import pseudobool as pb
+            sm = S.SATManager()
+            lits = [sm.newvar(i, "c") for i in range(int(op["n"]))]
+            if op["what"] == "heule":
+                sm.heuleencoding(lits, 3)
+            else:
+                e = pb.Expr()
+                for l in lits:
+                    e = e + l
+                sm.pseudoboolencoding(e >= 2, bool(op.get("decomp")))
+            return sig12(["ok", len(sm.clauses), sm.tcount])
         if kind == "sat":
             from props import c07
             from tools.rect import satmanager as S
@@ -302,6 +317,8 @@ def run_case(c):
         cls.append("large-decimal-die-after-small-designs")
     if any((h.get("note") or "").startswith("yaml-text-with-directive") for h in hist) and (probe.get("note") or "").startswith("yaml-text"):
         cls.append("yaml-text-probe-after-a-document-with-a-directive")
+    if probe["kind"] == "deepsat" and any(h["kind"] == "legal" for h in hist):
+        cls.append("large-constraint-after-a-legaliser-model")
     if probe.get("file") is not None and any(h.get("file") == probe["file"] for h in hist):
         cls.append("probe-loaded-from-a-file-name-used-before")
     if any(h.get("note") == "same-inequalities-other-construction" for h in hist):
@@ -463,6 +480,12 @@ def scales_s(draw):
     tolerances are set by whichever design comes first, and no verdict or region may depend on that."""
     base = draw(st.sampled_from(["0.1", "0.1", "0.3", "0.7", "1.1", "0.5", "1"]))
     mode = draw(_i(0, 3))
+    if draw(_i(0, 29)) == 0:
+        # a constraint over 300-3000 literals probed after a legaliser model (and other things) were built
+        what, n = draw(st.sampled_from([("heule", 1500), ("heule", 3000), ("heule", 6000), ("heule", 300), ("pb", 300)]))
+        probe = dict(kind="deepsat", scale=1, mutate=False, n=n, what=what, decomp=draw(st.booleans()))
+        hist = [draw(op_s(base, allow_scale=False, kinds=["legal"]))] + ([draw(op_s(base, allow_scale=False, kinds=["strop", "stog"]))] if draw(st.booleans()) else [])
+        return dict(probe=probe, history=hist)
     if mode == 3:
         # hand-written YAML documents only (literal forms, plain names, %YAML directives), probe and history
         probe = draw(op_s(base, allow_scale=False, kinds=["netlist", "die"], force_text=True))
@@ -485,7 +508,8 @@ def scales_s(draw):
 def subchecks():
     return [Sub("scales", run_case, strategy=scales_s(), n_quick=6000, n_thorough=300000, reset=False, shrink_quick=True,
                 required=("history-at-a-smaller-scale", "history-100x-larger", "large-decimal-die-after-small-designs",
-                          "yaml-text-probe-after-a-document-with-a-directive", "probe-loaded-from-a-file-name-used-before")),
+                          "yaml-text-probe-after-a-document-with-a-directive", "probe-loaded-from-a-file-name-used-before",
+                          "large-constraint-after-a-legaliser-model")),
             Sub("histories", run_case, strategy=case_s(), n_quick=1600, n_thorough=40000, reset=False, shrink_quick=True,
                 required=tuple("probe-" + f for f in FAMILIES) + ("history-with-degenerate-netlist", "history-mutates-results",
                                                                    "history-with-rejected-design", "history-100x-larger", "probe-rejected",
